@@ -89,6 +89,20 @@ pub fn gen_cfg(rng: &mut Rng, mech: Option<Mech>, limits: &[usize]) -> SimCfg {
         4 => Mech::ShortTerm(Some(true)),
         _ => Mech::LongTerm,
     });
+    // passwords: mostly plain; sometimes exactly at / next to the 64-byte HMAC block size;
+    // sometimes a string whose OpaqueString-enforced form differs from what the application passes
+    let (password_raw, password) = match rng.below(12) {
+        0 | 1 => {
+            let l = *rng.pick(&[63usize, 64, 64, 65, 128]);
+            let p = gen::stable_string(rng, l, l);
+            (p.clone(), p)
+        }
+        2 | 3 => gen::opaque_string_case(rng, 4, 40),
+        _ => {
+            let p = format!("pw-{}", gen::stable_string(rng, 8, 24));
+            (p.clone(), p)
+        }
+    };
     SimCfg {
         reliable,
         rto_ns,
@@ -97,7 +111,8 @@ pub fn gen_cfg(rng: &mut Rng, mech: Option<Mech>, limits: &[usize]) -> SimCfg {
         rc,
         mech,
         user: gen::stable_string(rng, 1, 24),
-        password: format!("pw-{}", gen::stable_string(rng, 8, 24)),
+        password,
+        password_raw,
         fingerprint: rng.chance(1, 3),
         max_transactions: *rng.pick(limits),
     }
@@ -174,7 +189,16 @@ impl<'a> Walk<'a> {
 
     fn delay(&self, rng: &mut Rng, rto: u64) -> u64 {
         if self.p.fast_responses {
-            match rng.below(10) {
+            match rng.below(12) {
+                // response times in exact simple ratios to the RTO in force / the configured RTO /
+                // the granularity: the values at which an estimator's state coincides with its
+                // initial or previous state (e.g. R = RTO/3 leaves the RTO unchanged after the
+                // first sample)
+                10 | 11 => {
+                    let base = *rng.pick(&[rto, rto, self.sim.cfg.rto_ns, self.sim.cfg.granularity_ns]);
+                    let (num, den) = *rng.pick(&[(1u64, 3u64), (1, 3), (1, 2), (1, 4), (1, 8), (2, 3), (1, 1), (1, 6)]);
+                    (base / den).saturating_mul(num).max(1)
+                }
                 0 => 1_000 + rng.below(1_000_000),
                 1..=6 => 1_000_000 + rng.below(rto.max(2_000_000) / 2),
                 7 => rto.saturating_sub(1 + rng.below(1000)),
